@@ -85,11 +85,7 @@ def cmdCtxio : P String := do
     return s!"DIFF C18 model-mismatch {feats}"
   return s!"OK {feats}"
 
-def runCmd : P String := do
-  let c ← tok
-  match c with
-  | "conn" => cmdConn
-  | "ctxio" => cmdCtxio
-  | _ => throw s!"unknown command {c}"
+/-- command table of this module; `Driver.Main` concatenates the tables of all `Driver/Cmds*.lean` -/
+def table : List (String × P String) := [("conn", cmdConn), ("ctxio", cmdCtxio)]
 
 end Driver
